@@ -16,6 +16,17 @@ STATE = [A, "self._history", "self.context", "self.status", "self.output", "self
          "self._after_events", "self._after_threads", "self._pending_send_cancels", "self._scheduled_sends", "self._actors"]
 
 
+def _dict_same(d):
+    return (f"forall[str](lambda k: ((k in {d}) == (k in old({d}))) and implies(k in {d}, {d}[k] == old({d})[k]))")
+
+
+# nothing but the queue / accepted history moved (used for the deferred, re-entrant calls)
+SAME_REST = " and ".join(f"same({f}, old({f}))" for f in [A, "self.status", "self.context", "self.output", "self.error", "self._action_depth", "self._is_processing",
+                                                          "self.g_removed", "self.g_ndiscarded", "self._history", "self._after_events", "self._after_threads",
+                                                          "self._scheduled_sends", "self._actors", "self._pending_send_cancels"]) + \
+    " and forall[Flag](lambda f: f.is_set == old(f.is_set)) and forall[Trans](lambda t: t.target_str == old(t.target_str))"
+
+
 def register(w):
     # the configuration and the recorded history hold states (never None): an invariant of every interpreter routine
     w.macro("wf_state", ["A_", "H_"],
@@ -43,26 +54,31 @@ def register(w):
         c.ens("result != None")
         c.may_raise("TypeError")
 
-    @w.contract(SI + "_process_transient_transitions", props=["C04", "C13"])
+    @w.contract(SI + "_process_transient_transitions", props=["C04", "C13", "C01"])
     def _(c):
-        c.trusted = ("assumed here (bounded: C01/C13 drivers): settles always-transitions; like _process_event it reaches the queue only "
-                     "through send() - append-only while _is_processing is set - and keeps the configuration legal")
+        # settles always-transitions: a bounded number of microsteps (C13), each a full _process_event (so the legality
+        # of the configuration rests on the one assumed clause of _process_event), the queue only grows at the back
         c.no_runtime = True
         c.mod(*STATE, Q, ACC, "Flag.is_set", "Trans.target_str")
-        c.req(f"legal({A})", "self._is_processing", f"wf_state({A}, self._history)")
-        c.ens(f"legal({A})", f"appended_only(old({Q}), old({ACC}), {Q}, {ACC})", "status_reach(old(self.status), self.status)", f"wf_state({A}, self._history)")
-        c.may_raise("Exception", ensures=[f"legal({A})", f"appended_only(old({Q}), old({ACC}), {Q}, {ACC})", "status_reach(old(self.status), self.status)", f"wf_state({A}, self._history)"])
+        c.req(f"legal({A})", "self._is_processing", f"wf_state({A}, self._history)", "root.max_iterations >= 0")
+        KEEP = [f"legal({A})", f"appended_only(old({Q}), old({ACC}), {Q}, {ACC})", "status_reach(old(self.status), self.status)", f"wf_state({A}, self._history)"]
+        c.ens(*KEEP)
+        c.may_raise("Exception", ensures=KEEP)
+        c.loop(0, inv=[*KEEP, "self._is_processing", "iterations >= 0", "limit == root.max_iterations"],
+               decreases="ite(limit - iterations + 1 > 0, limit - iterations + 1, 0)")
 
     @w.contract(SI + "_process_event_queue", props=["C04", "C13", "C14", "C01"])
     def _(c):
         c.no_runtime = True
         c.mod(*STATE, Q, ACC, REM, "self.g_ndiscarded", "self._is_processing", "Flag.is_set", "Trans.target_str")
-        c.req(f"queue_inv({Q}, {ACC}, {REM})", f"implies(not self._is_processing, legal({A}))", "root.max_iterations >= 0", f"wf_state({A}, self._history)")
-        c.ens(f"wf_state({A}, self._history)", label="configuration-and-history-hold-states")
+        # a re-entrant call (flag already set) is deferred and needs nothing; the drain proper needs the interpreter invariants
+        c.req(f"implies(not self._is_processing, queue_inv({Q}, {ACC}, {REM}) and legal({A}) and wf_state({A}, self._history) and root.max_iterations >= 0)")
+        c.ens(f"implies(not old(self._is_processing), wf_state({A}, self._history))", label="configuration-and-history-hold-states")
         # re-entrant call (an action sent an event while another is in flight): nothing happens now
         c.ens(f"implies(old(self._is_processing), seq_eq({Q}, old({Q})) and seq_eq({REM}, old({REM})) and set_eq({A}, old({A})) and self.status == old(self.status) and self._is_processing)",
               label="re-entrant-call-is-deferred")
-        c.ens(f"queue_inv({Q}, {ACC}, {REM})", label="fifo-nothing-lost-or-duplicated-in-the-queue")
+        c.ens(f"implies(old(self._is_processing), seq_eq({ACC}, old({ACC})) and {SAME_REST})", label="re-entrant-call-changes-nothing")
+        c.ens(f"implies(not old(self._is_processing), queue_inv({Q}, {ACC}, {REM}))", label="fifo-nothing-lost-or-duplicated-in-the-queue")
         c.ens("status_reach(old(self.status), self.status)", label="status-moves-along-allowed-edges")
         c.ens(f"implies(not old(self._is_processing), not self._is_processing and legal({A}))", label="flag-released-and-configuration-legal")
         c.ens(f"implies(not old(self._is_processing), len({Q}) == 0)", label="queue-drained-on-return")
@@ -72,7 +88,8 @@ def register(w):
         c.label_props = {"discard-only-after-termination": ["C04", "C13"], "no-accepted-event-is-discarded": ["C04", "C13"]}
         c.ghost("limit_hit", BOOL, init="False")
         c.ens("implies(not final_limit_hit, self.g_ndiscarded == old(self.g_ndiscarded))", label="no-accepted-event-is-discarded")
-        c.may_raise("Exception", ensures=["status_reach(old(self.status), self.status)", f"queue_inv({Q}, {ACC}, {REM})", "not self._is_processing", f"legal({A})",
+        # a deferred (re-entrant) call returns at once: it cannot raise
+        c.may_raise("Exception", when="not self._is_processing", ensures=["status_reach(old(self.status), self.status)", f"queue_inv({Q}, {ACC}, {REM})", "not self._is_processing", f"legal({A})",
                                           "implies(not final_limit_hit, self.g_ndiscarded == old(self.g_ndiscarded))", f"len({ACC}) >= len(old({ACC})) and forall[int](lambda i: implies(0 <= i and i < len(old({ACC})), {ACC}[i] == old({ACC})[i]), lambda i: {ACC}[i])",
                                           f"wf_state({A}, self._history)"])
         c.after("current_event = self._event_queue.popleft()", f"{REM} = append({REM}, current_event)",
@@ -100,19 +117,23 @@ def register(w):
         c.no_runtime = True
         c.param("event_or_type", OPAQUE)
         c.mod(*STATE, Q, ACC, REM, "self.g_ndiscarded", "self._is_processing", "Flag.is_set", "Trans.target_str")
-        c.req(f"queue_inv({Q}, {ACC}, {REM})", f"implies(not self._is_processing, legal({A}))", "root.max_iterations >= 0", f"wf_state({A}, self._history)")
-        c.ens(f"wf_state({A}, self._history)", label="configuration-and-history-hold-states")
+        c.req(f"implies(not self._is_processing, queue_inv({Q}, {ACC}, {REM}) and legal({A}) and wf_state({A}, self._history) and root.max_iterations >= 0)")
+        c.ens(f"implies(not old(self._is_processing), wf_state({A}, self._history))", label="configuration-and-history-hold-states")
         c.ens(f"implies(old(self.status) != 'running', seq_eq({Q}, old({Q})) and seq_eq({ACC}, old({ACC})) and set_eq({A}, old({A})) and self.status == old(self.status) and self._is_processing == old(self._is_processing))",
               label="send-on-non-running-interpreter-changes-and-queues-nothing")
-        c.ens(f"queue_inv({Q}, {ACC}, {REM})", label="fifo-nothing-lost-or-duplicated-in-the-queue")
+        c.ens(f"implies(not old(self._is_processing), queue_inv({Q}, {ACC}, {REM}))", label="fifo-nothing-lost-or-duplicated-in-the-queue")
         c.ens(f"implies(old(self.status) == 'running', len({ACC}) >= len(old({ACC})) + 1)", label="running-interpreter-accepts-the-event")
         c.ens(f"forall[int](lambda i: implies(0 <= i and i < len(old({ACC})), {ACC}[i] == old({ACC})[i]))", label="accepted-history-is-append-only")
         c.ens(f"implies(old(self.status) == 'running' and old(self._is_processing), len({Q}) == len(old({Q})) + 1 and set_eq({A}, old({A})))",
               label="event-sent-during-processing-is-queued-not-run-re-entrantly")
+        c.ens(f"implies(old(self.status) == 'running' and old(self._is_processing), {SAME_REST} and appended_only(old({Q}), old({ACC}), {Q}, {ACC}))",
+              label="event-sent-during-processing-only-appends")
+        c.ens(f"implies(old(self.status) != 'running', {SAME_REST})", label="send-on-non-running-interpreter-writes-nothing")
         c.ens(f"implies(not old(self._is_processing), not self._is_processing and legal({A}))", label="legal-configuration-when-send-returns")
-        c.may_raise("Exception", ensures=[f"queue_inv({Q}, {ACC}, {REM})", f"implies(not old(self._is_processing), not self._is_processing and legal({A}))", f"wf_state({A}, self._history)"])
+        c.may_raise("Exception", ensures=[f"implies(not old(self._is_processing), queue_inv({Q}, {ACC}, {REM}) and wf_state({A}, self._history))", f"implies(not old(self._is_processing), not self._is_processing and legal({A}))",
+                                          ("a-refused-event-changes-nothing", f"implies(old(self._is_processing) or old(self.status) != 'running', {SAME_REST} and same({Q}, old({Q})) and same({ACC}, old({ACC})))")])
         c.after("self._event_queue.append(event_obj)", f"{ACC} = append({ACC}, event_obj)",
-                f"assert queue_inv({Q}, {ACC}, {REM})",
+                f"assert implies(not self._is_processing, queue_inv({Q}, {ACC}, {REM}))",
                 f"assert forall[int](lambda i: implies(0 <= i and i < len(old({ACC})), {ACC}[i] == old({ACC})[i]))")
 
 
@@ -169,16 +190,51 @@ def register(w):
         c.no_runtime = True
         enter_clauses(c)
 
-    @w.contract(SI + "_check_and_fire_on_done", also=[BI + "_check_and_fire_on_done"], props=["C10"])
+    @w.contract(BI + "_resolve_output", props=["C10"])
     def _(c):
-        c.trusted = ("assumed: walks up from a final state, queues done.state.<id> for the nearest done ancestor through send() (append-only while "
-                     "processing) or completes the machine through _complete (status/output); never touches the configuration; bounded: bounded.c10")
+        c.trusted = "assumed total and effect-free: a literal, or a user callable whose exception is caught (returns None); A-user"
         c.no_runtime = True
+        c.param("final_state", Node).returns(OPAQUE)
+
+    @w.contract(BI + "_resolve_output_value", props=["C10"])
+    def _(c):
+        c.trusted = "assumed total and effect-free: a literal, or a user callable whose exception is caught (returns None); A-user"
+        c.no_runtime = True
+        c.param("output", OPAQUE).returns(OPAQUE)
+
+    FIRE_MODS = ["self.status", "self.output", Q, ACC]
+
+    def fire_clauses(c):
         c.param("final_state", Node)
-        c.mod("self.status", "self.output", Q, ACC)
+        c.req("final_state != None")
         c.req("ghost:self._is_processing")
         c.ens(APP_E, label="ghost:queue-append-only")
-        c.ens("status_reach(old(self.status), self.status)")
+        c.ens("status_reach(old(self.status), self.status)", label="status-moves-along-allowed-edges")
+        # C10: at most one completion notice per entered final state; the machine completes only for a final child of the root
+        c.ens(f"len({Q}) <= len(old({Q})) + 1", label="at-most-one-done-event-is-queued")
+        c.ens("implies(final_state.parent != None and final_state.parent != root, self.status == old(self.status) and self.output == old(self.output))",
+              label="only-a-final-child-of-the-root-completes-the-machine")
+        c.ens(f"implies(len({Q}) == len(old({Q})) + 1, self.status == old(self.status))", label="a-done-event-and-machine-completion-exclude-each-other")
+        c.may_raise("Exception", ensures=["ghost:" + APP_E, "status_reach(old(self.status), self.status)"])
+
+    @w.contract(SI + "_check_and_fire_on_done", props=["C10"])
+    def _(c):
+        c.no_runtime = True
+        c.mod(*FIRE_MODS)
+        fire_clauses(c)
+        UNTOUCHED = " and ".join(f"same({f}, old({f}))" for f in [*STATE, Q, ACC, REM, "self.g_ndiscarded", "self._is_processing"]) + \
+            " and forall[Flag](lambda f: f.is_set == old(f.is_set)) and forall[Trans](lambda t: t.target_str == old(t.target_str))"
+        # the walk itself writes nothing: everything happens in the iteration that returns
+        c.loop(0, inv=[UNTOUCHED,
+                       "ancestor == None or anc(final_state, ancestor)"],
+               decreases="ite(ancestor != None, ancestor.depth + 1, 0)")
+
+    @w.contract(BI + "_check_and_fire_on_done", props=["C10"])
+    def _(c):
+        c.trusted = "assumed for the asyncio engine (same clauses as the proved sync body); bounded: bounded.c10"
+        c.no_runtime = True
+        c.mod(*FIRE_MODS)
+        fire_clauses(c)
 
     @w.contract(SI + "start", props=["C14", "C04", "C01"])
     def _(c):
